@@ -99,17 +99,70 @@ fn guard_round() {
 }
 builtin_harness!(u_guard_round, guard_round, 3);
 
-fn guard_unary_math() {
+fn guard_unary(b: BuiltInFunction, numeric: bool) {
     let heap = Rc::new(RefCell::new(Heap::verif_empty()));
     let env = Rc::new(Environment::new());
-    let k: u8 = kani::any();
-    let b = match k % 5 { 0 => BuiltInFunction::Abs, 1 => BuiltInFunction::Floor, 2 => BuiltInFunction::Ceil, 3 => BuiltInFunction::Trunc, _ => BuiltInFunction::ToBool };
     let x = any_scalar();
     let r = call_builtin(b, vec![x], &heap, &env);
-    if k % 5 < 4 {
+    if numeric {
         assert!(r.is_ok() == matches!(x, Value::Number(_)), "U-GUARD#math:number-argument-required-and-sufficient");
     }
     kani::cover!(r.is_ok(), "reach-ok");
     std::mem::forget(r); std::mem::forget(heap); std::mem::forget(env);
 }
+
+// the built-in is dispatched OUTSIDE the call (a merged symbolic built-in would make CBMC explore all 69 arms)
+fn guard_unary_math() {
+    let k: u8 = kani::any();
+    match k % 5 {
+        0 => guard_unary(BuiltInFunction::Abs, true),
+        1 => guard_unary(BuiltInFunction::Floor, true),
+        2 => guard_unary(BuiltInFunction::Ceil, true),
+        3 => guard_unary(BuiltInFunction::Trunc, true),
+        _ => guard_unary(BuiltInFunction::ToBool, false),
+    }
+}
 builtin_harness!(u_guard_unary_math, guard_unary_math, 3);
+
+// ---- U-RANDOM (C02): random(seed) is a function of its argument only ---------------------------------------
+fn random_pure() {
+    let heap = Rc::new(RefCell::new(Heap::verif_empty()));
+    let env = Rc::new(Environment::new());
+    let seed: f64 = kani::any();
+    let r1 = call_builtin(BuiltInFunction::Random, vec![Value::Number(seed)], &heap, &env);
+    let r2 = call_builtin(BuiltInFunction::Random, vec![Value::Number(seed)], &heap, &env);
+    match (&r1, &r2) {
+        (Ok(Value::Number(a)), Ok(Value::Number(b))) => {
+            assert!(a.to_bits() == b.to_bits(), "U-RANDOM#same-seed-gives-the-same-number");
+            assert!(*a >= 0.0 && *a < 1.0, "U-RANDOM#result-lies-in-the-unit-interval");
+        }
+        _ => assert!(false, "U-RANDOM#a-number-seed-always-yields-a-number"),
+    }
+    assert!(heap.borrow().verif_len() == 0, "U-RANDOM#no-heap-effect");
+    kani::cover!(r1.is_ok(), "reach-ok");
+    std::mem::forget(r1); std::mem::forget(r2); std::mem::forget(heap); std::mem::forget(env);
+}
+
+#[kani::proof]
+#[kani::unwind(3)]
+#[kani::solver(cvc5)]
+#[kani::stub(alloc::fmt::format, crate::verif_common::fmt_stub)]
+#[kani::stub(std::backtrace::Backtrace::capture, crate::verif_common::bt_stub)]
+#[kani::stub(<crate::error::RuntimeError as std::convert::From<::anyhow::Error>>::from, crate::verif_common::from_anyhow_stub)]
+#[kani::stub(std::hash::RandomState::new, crate::verif_common::rs_stub)]
+#[kani::stub(crate::functions::FunctionDef::call, no_call)]
+fn u_random_pure() {
+    random_pure();
+}
+
+// median(x, y) with separate scalar arguments: any two numbers (incl. NaN, infinities) - no panic in the sort
+fn guard_median_varargs() {
+    let heap = Rc::new(RefCell::new(Heap::verif_empty()));
+    let env = Rc::new(Environment::new());
+    let (a, b): (f64, f64) = (kani::any(), kani::any());
+    let r = call_builtin(BuiltInFunction::Median, vec![Value::Number(a), Value::Number(b)], &heap, &env);
+    assert!(matches!(r, Ok(Value::Number(_))), "U-GUARD#median:any-two-numbers-give-a-number");
+    kani::cover!(a.is_nan(), "reach-nan");
+    std::mem::forget(r); std::mem::forget(heap); std::mem::forget(env);
+}
+builtin_harness!(u_guard_median_varargs, guard_median_varargs, 6);
